@@ -797,6 +797,63 @@ fn run_history(rep: &mut Report, rules: Rules, seed: u64, case: u64, max_ops: us
     let _ = std::fs::remove_dir_all(&dir);
 }
 
+/// Saved-copy continuation: a database written by `save()` (whose log lists the nodes in the
+/// source's iteration order, not in id order) is opened, written to, closed and reopened twice.
+/// Only logged direct-API calls are used and no checkpoint / rotation happens, so no deviation
+/// rule applies: every reopen must give back the model exactly and fresh ids must be fresh.
+fn saved_copy_history(rep: &mut Report, seed: u64, case: u64) {
+    let mut r = Rng::new(seed, "C05.saved", case);
+    let dir = scratch_dir("c05s");
+    let mut m = Model::default();
+    let mut hist: Vec<String> = vec!["source: in-memory".into()];
+    let mut kinds: BTreeSet<&'static str> = BTreeSet::new();
+    let src = GrafeoDB::new_in_memory();
+    let mut sink = Vec::new();
+    for _ in 0..(20 + r.below(60)) {
+        mutate_opt(&src, &mut m, &mut sink, &mut r, &mut hist, &mut kinds, true);
+    }
+    let path = dir.join("copy");
+    let res: Result<(), String> = (|| {
+        src.save(&path).map_err(|e| format!("save:error:{e}"))?;
+        hist.push("save(); open(copy)".into());
+        for cycle in 0..3 {
+            let db = open(&path, DurabilityMode::Sync).map_err(|e| format!("open_failed:{e}"))?;
+            rep.eval();
+            rep.count("saved_copy.reopens", 1);
+            if let Some((k, d)) = diff_kind(&dump(&db), &m) {
+                return Err(format!("reopen:{k}|cycle={cycle}|{d}"));
+            }
+            for _ in 0..(3 + r.below(8)) {
+                let ids_before: BTreeSet<u64> = m.nodes.keys().copied().collect();
+                let e_before: BTreeSet<u64> = m.edges.keys().copied().collect();
+                let mut pushed = Vec::new();
+                mutate_opt(&db, &mut m, &mut pushed, &mut r, &mut hist, &mut kinds, true);
+                for (op, _) in &pushed {
+                    match op {
+                        MOp::CreateNode { id, .. } if ids_before.contains(id) => return Err(format!("ids:node_id_collides_with_existing|cycle={cycle}|id={id}")),
+                        MOp::CreateEdge { id, .. } if e_before.contains(id) => return Err(format!("ids:edge_id_collides_with_existing|cycle={cycle}|id={id}")),
+                        _ => {}
+                    }
+                }
+            }
+            if let Some((k, d)) = diff_kind(&dump(&db), &m) {
+                return Err(format!("live:{k}|cycle={cycle}|{d}"));
+            }
+            db.close().map_err(|e| format!("close:error:{e}"))?;
+            hist.push("close(); open(copy)".into());
+        }
+        Ok(())
+    })();
+    if let Err(e) = res {
+        let mut parts = e.splitn(3, '|');
+        let kind = parts.next().unwrap_or("").to_string();
+        rep.deviation(&format!("saved_copy:{}", kind.split(':').take(2).collect::<Vec<_>>().join(":")), json!({"what": e, "history": hist.iter().rev().take(40).collect::<Vec<_>>(), "case": case}));
+    } else if kinds.len() >= 3 {
+        rep.nontrivial(hash_str(&format!("saved:{}", hist.join(";"))));
+    }
+    let _ = std::fs::remove_dir_all(&dir);
+}
+
 pub fn run(tier: Tier, seed: u64) -> ! {
     let mut rep = Report::new("C05", tier, seed, "exploration");
     rep.rule = "random histories on an on-disk GrafeoDB: every mutating direct-API call (create/delete node and edge, with props, set/remove property with every value type, add/remove label, batch_create_nodes), mutating statements through sessions (auto-commit and explicit transactions), interleaved with wal_checkpoint(), wal().rotate(), wal().sync(), size-triggered rotation (threshold override hook from 'every record' upward) and 1-4 close/reopen cycles, under each durability mode (sync, batch with tiny thresholds, adaptive, no-sync). After every reopen the dump is compared with the persistent model; new identifiers must not collide. non-trivial = history with >= 1 reopen preceded by a checkpoint or rotation and >= 3 op kinds; distinct by hash of the operation list".into();
@@ -805,6 +862,9 @@ pub fn run(tier: Tier, seed: u64) -> ! {
     let n = tier.pick(250, 4_000);
     for case in 0..n {
         run_history(&mut rep, rules, seed, case, tier.pick(25, 60));
+    }
+    for case in 0..tier.pick(60, 1_500) {
+        saved_copy_history(&mut rep, seed, case);
     }
     rep.assumptions = vec![
         "local filesystem of the sandbox; no claim about other filesystems".into(),
